@@ -325,8 +325,9 @@ def r6_traversal(idx, r):
     y = [n for n in walk_local(ic.node) if isinstance(n, ast.YieldFrom)]
     oky = len(y) == 1 and norm(y[0].value) == "self._iterChildren(deep, generationNum, checker)"
     r.require(oky, "Composite.iterChildren:delegates", ic, msg="iterChildren must yield from self._iterChildren(deep, generationNum, checker)")
-    chk = [s for s in iter_stores(ic.node) if s.attr == "checker" and s.value is not None]
-    okc = any(norm(s.value) == "predicate" for s in chk) and any(isinstance(s.value, ast.Lambda) and norm(s.value.body) == "True" for s in chk)
+    from ..astutil import cond_values
+    chk = cond_values(ic.node, "checker")
+    okc = any(norm(v) == "predicate" for v, _c in chk) and any(isinstance(v, ast.Lambda) and norm(v.body) == "True" and any("predicate" in norm(t) for t, _p in c_) for v, c_ in chk)
     r.require(okc, "Composite.iterChildren:checker", ic, msg="checker must be the predicate, or accept-all when none is given")
     f = c.methods.get("_iterChildren")
     ys = [n for n in walk_local(f.node) if isinstance(n, ast.YieldFrom)]
